@@ -129,7 +129,9 @@ def _issubclass_impl(ctx: CallContext) -> Value:
     narrowed_type = unite_values(
         *[SubclassValue(TypedValue(typ)) for typ in narrowed_types]
     )
-    predicate = IsAssignablePredicate(narrowed_type, ctx.visitor, positive_only=False)
+    predicate = IsAssignablePredicate(
+        narrowed_type, ctx.visitor, positive_only=False, runtime_check=True
+    )
     constraint = Constraint(varname, ConstraintType.predicate, True, predicate)
     return annotate_with_constraint(TypedValue(bool), constraint)
 
